@@ -82,8 +82,9 @@ class CallMixin:
             r = self.resolve_name(q)
             if r is not None and r[0] == 'contract':
                 c = self.reg.contracts[r[1]]
-                if c.kind == 'method':
+                if c.kind == 'method' and not (isinstance(f.value, ast.Name) and f.value.id not in st.env and f.value.id in self.reg.classes):
                     # an explicitly chosen contract for a bound-method call: the receiver is the first argument
+                    # (Class.method(obj, ...) passes the receiver itself)
                     for recv, s0 in self.ev(f.value, st):
                         for (vs, kw), s in self.ev_args(e, s0):
                             yield from self.apply_contract(c, [recv] + vs, kw, s, e)
@@ -174,7 +175,12 @@ class CallMixin:
             res.append(self.isinstance1(v, cn, st, node))
         return z3.Or(*res) if len(res) > 1 else res[0]
 
+    def class_alias(self, cn):
+        r = self.resolve_name(cn) if not self.specmode else None
+        return r[1] if r is not None and r[0] == 'class' else cn
+
     def isinstance1(self, v, cn, st, node):
+        cn = self.class_alias(cn)
         if isinstance(v, SeqV):
             return z3.BoolVal(cn in ('list', 'Sequence'))
         k = v.ty.kind
@@ -259,12 +265,37 @@ class CallMixin:
                 ty = self.join_types([inner.ty, d.ty])
                 yield SV(ty, z3.If(opt_is_none(x), self.coerce(d, ty, s).z, self.coerce(inner, ty, s).z)), s
             elif not isinstance(x, SeqV) and x.ty.kind == 'obj':
-                if self.reg.find_field(x.ty.args[0], attr):
+                f = self.reg.find_field(x.ty.args[0], attr)
+                if f and f[0] == 'field' and attr in self.reg.classes[f[1]].dynamic:
+                    cur = self.dyn_read(x, attr, s, e)
+                    ty = self.join_types([cur.ty.args[0], d.ty])
+                    yield SV(ty, z3.If(opt_is_none(cur), self.coerce(d, ty, s).z, self.coerce(opt_val(cur), ty, s).z)), s
+                elif f:
                     yield from self.getattr(x, attr, s, e)
                 else:
                     yield d, s
             else:
                 _unsup('getattr on %r' % (x.ty,), e)
+
+    def dyn_read(self, x, attr, s, e):
+        self._dyn_probe = getattr(self, '_dyn_probe', 0) + 1
+        try:
+            return list(self.getattr(x, attr, s, e))[0][0]
+        finally:
+            self._dyn_probe -= 1
+
+    def bi_hasattr(self, e, st):
+        """hasattr(x, 'name') with a literal name, for attributes declared `dynamic` (None models absence)"""
+        if len(e.args) != 2 or not isinstance(e.args[1], ast.Constant):
+            _unsup('hasattr without literal name', e)
+        attr = e.args[1].value
+        for x, s in self.ev(e.args[0], st):
+            if isinstance(x, SeqV) or x.ty.kind != 'obj':
+                _unsup('hasattr on %r' % (getattr(x, 'ty', None),), e)
+            f = self.reg.find_field(x.ty.args[0], attr)
+            if not (f and f[0] == 'field' and attr in self.reg.classes[f[1]].dynamic):
+                _unsup('hasattr of an attribute not declared dynamic', e)
+            yield SV(BOOL, z3.Not(opt_is_none(self.dyn_read(x, attr, s, e)))), s
 
     def bi_id(self, e, st):
         for v, s in self.ev(e.args[0], st):
